@@ -229,7 +229,7 @@ class Run:
     # ---- open
     def open(self):
         self.prs, data = open_start(self.start, self.rnd)
-        if self.profile in ("xml", "mixed"):
+        if self.profile in ("xml", "mixed", "sat"):
             from . import ops
 
             ops.enrich_start(self)
@@ -670,7 +670,7 @@ def pick_start(r, starts=None):
 def run_online_unit(prop, unit, tier, seed, acc):
     """Online half of C10/C11/C19: the property's monitor is the only decider inside mixed histories."""
     u = {"lo": unit["shard"] * unit["n"], "hi": (unit["shard"] + 1) * unit["n"], "nops": 14 if tier == "quick" else 30}
-    run_histories("mixed", {prop}, u, tier, seed, acc, save_every=7)
+    run_histories(unit.get("profile", "mixed"), {prop}, u, tier, seed, acc, save_every=7)
 
 
 def replay_history(w, acc, deciders):
